@@ -388,6 +388,64 @@ def firmware_strings(ctx, repo, rule):
            f"GeckoAsyncSpa._connect with a version reply EN 70 v14.1 / CO 69 v11.2 stores {got}, expected {want}", repo.method("GeckoAsyncSpa", "_connect").loc)
 
 
+def log_file_model(ctx, repo, rule):
+    """GeckoSnapshot.parse_log_file by interpretation on a model file: two snapshots as the (interpreted) shell writes them
+    in its logfile format, with debug chatter before, between and after them and the second one dangling at the end of the
+    file: exactly two snapshots come back, each with its own name and block."""
+    from ..absint import Interp, Obj, PyRaise, Undecided
+    sh = repo.cls("GeckoShell")
+    ds = repo.method("GeckoShell", "do_snapshot")
+    blocks = {"First one": bytes(range(256)) * 4, "Second (dangling)": bytes(reversed(range(256))) * 4}
+    lines = ["2020-12-08 19:53:00,001 geckolib.driver.udp_socket DEBUG Sending b'<PACKT>...</PACKT>' to ('10.0.0.5', 10022)\n"]
+    for name, block in blocks.items():
+        it = Interp(repo, max_depth=14)
+        out = []
+
+        def log_hook(level, args, out=out):
+            if not args:
+                return
+            msg = args[0]
+            if isinstance(msg, str) and len(args) > 1:
+                try:
+                    msg = msg % tuple(args[1:])
+                except (TypeError, ValueError):
+                    msg = f"{msg} {args[1:]}"
+            out.append(str(msg))
+        it.log_hook = log_hook
+        spa = Obj(None, {"revision": "19.00", "intouch_version_en": "88 v15.0", "intouch_version_co": "89 v11.0", "pack": "inYT", "version": "367 v2.0", "config_number": 4,
+                         "config_version": 61, "log_version": 59, "pack_type": 12, "struct": Obj(None, {"status_block": block}, name="struct"), "accessors": {}}, name="spa")
+        shell = Obj(sh, {"facade": Obj(None, {"spa": spa}, name="facade")}, name="shell")
+        try:
+            it.call(ds, shell, [name])
+        except (PyRaise, Undecided) as e:
+            raise AnalysisError(f"GeckoShell.do_snapshot on the model facade: {e}")
+        lines += [f"2020-12-08 19:53:28,310 geckolib.utils.shell INFO {ln}\n" for ln in out]
+        if name == "First one":
+            lines.append("2020-12-08 19:53:29,000 geckolib.driver.udp_socket DEBUG Received b'<PACKT>...</PACKT>' from ('10.0.0.5', 10022)\n")
+
+    class _File(list):
+        def enter(self, interp):
+            return self
+
+        def exit(self, interp, exc):
+            return False
+    it2 = Interp(repo, max_depth=14)
+    it2.call_hook = lambda _i, node, callee, a, k: (_File(lines) if getattr(callee, "name", "") == "open" else NotImplemented)
+    plf = repo.method("GeckoSnapshot", "parse_log_file")
+    try:
+        snaps = it2.call(plf, None, ["shell.log"])
+        got = [(it2.getattr(s_, "name"), it2.getattr(s_, "bytes")) for s_ in list(snaps)]
+    except PyRaise as e:
+        got = f"raises {e.what}"
+    except Undecided as e:
+        raise AnalysisError(f"GeckoSnapshot.parse_log_file on the model file: {e}")
+    want = list(blocks.items())
+    ctx.ob(rule, "parse_log_file::two-snapshots-in-one-log", got == want,
+           f"a log file holding two snapshots written by the shell (debug lines before, between and after; the second one ends the file) is read as "
+           f"{[(n_, len(b_) if isinstance(b_, (bytes, bytearray)) else b_) for n_, b_ in got] if isinstance(got, list) else got}, expected {[(n_, len(b_)) for n_, b_ in want]} with the blocks intact",
+           plf.loc, sample={"rule": rule, "lines": len(lines), "snapshots": len(got) if isinstance(got, list) else str(got)})
+
+
 def reader_table(repo):
     """[(pattern text, handler method name)] of the snapshot reader, in table order, however the table is kept: a list
     of (pattern, bound method) pairs built in __init__, or a class-level tuple of records holding a compiled pattern and
@@ -522,9 +580,7 @@ def check(ctx):
                        f"a snapshot named {probe!r}, written as {line.strip()!r}, is read back with the name {got!r} (rows {[fn for _, fn in name_rows]})", snap_init.loc,
                        sample={"rule": "R1", "name": probe, "format": fmt_name, "read_back": got} if probe == "a)b" else None)
     # parse_log_file: a snapshot starts at a line containing "Snapshot" and takes lines containing "INFO"
-    plf = repo.method("GeckoSnapshot", "parse_log_file")
-    t = const_text(plf)
-    ctx.ob("R1", "parse_log_file::markers", "'Snapshot' in line" in t and "'INFO' in line" in t, "parse_log_file no longer keys on the 'Snapshot' and 'INFO' markers the shell's log format carries", plf.loc)
+    log_file_model(ctx, repo, "R1")
 
     # ---- R2 block dump: what the writer logs is checked on the interpreted writer (snapshot_round_trip); here the reader
     # (its pattern applied to the dumps the writer produces, and its handler interpreted on what the pattern captured)
